@@ -267,7 +267,7 @@ func (ps *propertyServer) findPrevAndOlderProperties(nodeProperties map[string][
 				olderProperties = append(olderProperties, p)
 			}
 			// update the prov property
-			if prevPropertyWithMetadata == nil || p.Metadata.ModRevision > prevPropertyWithMetadata.Metadata.ModRevision {
+			if prevPropertyWithMetadata == nil || p.supersedes(prevPropertyWithMetadata) {
 				prevPropertyWithMetadata = p
 			}
 		}
@@ -543,18 +543,18 @@ func (ps *propertyServer) sortedQueryWithDedup(
 
 		// Check if we've seen this entity before
 		if existingCount, seen := seenIDs[entity]; seen {
-			// Same modRevision - accumulate node
-			if p.Metadata.ModRevision == existingCount.Metadata.ModRevision {
+			// Older modRevision, or the value whose tombstone is already seen - skip
+			if existingCount.supersedes(p) {
+				continue
+			}
+
+			// Same modRevision and same state - accumulate node
+			if !p.supersedes(existingCount.propertyWithMetadata) {
 				existingCount.addExistNode(p.node)
 				continue
 			}
 
-			// Older modRevision - skip
-			if p.Metadata.ModRevision < existingCount.Metadata.ModRevision {
-				continue
-			}
-
-			// Newer modRevision - replace old entry
+			// Newer modRevision, or the tombstone of the seen value - replace old entry
 			// Find and remove old entry from resultBuffer using binary search
 			oldIndex := ps.findPropertyInBuffer(resultBuffer, existingCount, isDesc)
 			if oldIndex >= 0 && oldIndex < len(resultBuffer) {
@@ -682,9 +682,10 @@ func (ps *propertyServer) simpleDedupWithoutSort(
 
 			if existing, seen := seenIDs[entity]; seen {
 				switch {
-				case existing.Metadata.ModRevision < p.Metadata.ModRevision:
+				case p.supersedes(existing.propertyWithMetadata):
 					seenIDs[entity] = newPropertyWithCounts(p, entity, n)
-				case existing.Metadata.ModRevision == p.Metadata.ModRevision:
+				case !existing.supersedes(p):
+					// same revision and same state
 					existing.addExistNode(n)
 				}
 			} else {
@@ -853,6 +854,17 @@ type propertyWithMetadata struct {
 	node        string
 	sortedValue []byte
 	deletedTime int64
+}
+
+// supersedes reports whether p is a newer state of the same property than other: a higher
+// revision, or the tombstone of other's revision. A delete keeps the revision of the property it
+// deletes, so between two copies of one revision the deleted one is the later state; a replica
+// that missed the delete must not bring the property back, whichever node answers first.
+func (p *propertyWithMetadata) supersedes(other *propertyWithMetadata) bool {
+	if p.Metadata.ModRevision != other.Metadata.ModRevision {
+		return p.Metadata.ModRevision > other.Metadata.ModRevision
+	}
+	return p.deletedTime > 0 && other.deletedTime <= 0
 }
 
 // SortedField implements sortpkg.Comparable interface for k-way merge sorting.
